@@ -319,8 +319,13 @@ def spec(ctx, tier, seed):
     jobs.append(Job('canary', mod, 'graph_job', {'n': 2, 'fam': ['sym', 'sym'], 'which': 'none', 'canary': True}, engine_key=k, stop_after_violations=1, canary=True))
     return {'jobs': jobs, 'level': 'model_checking', 'allowed_status': ('ok', 'panic', 'bound'),
             'assumptions': ASSUMPTIONS + ['Arc/RwLock are single-threaded cells', 'usize::to_string / str::parse are exact on concrete numbers',
-                                          'native replay compiles double_labeled_graph.rs and the database DTOs of server/src/adf.rs from their source text into the replay crate'],
+                                          'native replay compiles double_labeled_graph.rs, the database DTOs and the bodies of the two spawn_blocking closures of server/src/adf.rs from their source text into the replay crate',
+                                          'web::Data / Arc / Mutex are single-threaded cells; nom under models (as C08); Hybrid parsing on the biodivine contract model'],
             'bounds': 'all 256 two-statement ADFs and seeded 3-statement families; pictures of the ADF itself and of every model of each of the six strategies; database round trip '
-                      '(SimplifiedAdf) followed by each strategy; the statement dictionary alone for every number of statements 1..16 (thorough: 40)',
-            'outside': 'HTTP / actix handlers, async task bookkeeping (currently_running), MongoDB, timeouts, the strategy dispatch inside the handler closure, both parsing strategies as wired by '
-                       'add_adf_problem, "unparseable code is an error": none of these is a function a bounded symbolic execution can run'}
+                      '(SimplifiedAdf) followed by each strategy; the statement dictionary alone for every number of statements 1..16 (thorough: 40). Handler closures: submitted texts whose '
+                      'conditions are symbolic (normal forms with c(v)/c(f) bytes as solver variables) for all two-statement ADFs under Naive parsing (plain DNF) and Hybrid parsing (one seed-chosen '
+                      'other form; thorough: four forms x both strategies) and a three-statement family (thorough: four, both strategies), each followed by all six solving strategies; 12 malformed '
+                      'texts and every text s(a).ac(a, + 3 (4) symbolic bytes; running-task report on all sets of 2 (3) entries over two users, two names, three tasks',
+            'outside': 'HTTP / actix, MongoDB (the stored form is handed from the parse closure to the solve closure directly), tokio timeout / spawn and the async continuations that write '
+                       'results into the database, has_been_solved, authentication (C17). Executed since the third session and no longer outside: the two synchronous closures handed to '
+                       'spawn_blocking (parse + compile by either parsing strategy + picture + stored form; rebuild + strategy dispatch + pictures; running-task bookkeeping), see harness/c16h.py'}
